@@ -182,6 +182,28 @@ def run(prog, R):
     R.premises(prog, "C15.3-unit-table-premise", ["C10:C10.1-"], "a number directly followed by a unit is split into number + identifier by the same unit table that validation and the AST accessor use")
     import scanners
     scanners.exponent_markers(prog, R, "C15.3-exponent-markers")
+    scanners.whitespace_check(prog, R, "C15.5-whitespace-class")
+    # word-like lexer directives (`OPENQASM`, `pragma`, `#pragma`) are recognised only when whitespace follows the
+    # word: otherwise an identifier that merely starts with it (`pragma2`, `OPENQASMx`) would change its token class
+    for wfn in ("oq3_lexer::Cursor::have_pragma", "oq3_lexer::Cursor::have_openqasm"):
+        wb = R.anchor(prog, wfn)
+        if not wb:
+            continue
+        ntrue, badw = 0, []
+        for p in SymExec(prog, wb, max_visits=1, max_paths=2000).paths():
+            if "__diverged__" in p.env:
+                continue
+            r = deep_strip(p.env.get(0))
+            cs = [(show(t), c) for t, c in conds_of(p)]
+            is_true = r == ("c", "bool", 1)
+            is_ws_ret = show(r).startswith("is_whitespace(first(")
+            if is_true:
+                ntrue += 1
+                if not (cs and cs[-1][0].startswith("is_whitespace(first(") and truth(cs[-1][1])):
+                    badw.append(cs[-1:] if cs else "unconditional")
+            elif is_ws_ret:
+                ntrue += 1
+        R.ob("C15.2-directive-word-boundary", wfn.split("::")[-1], ntrue >= 1 and not badw, wb.at, f"{ntrue} accepting path(s), each decided by is_whitespace(first())" if not badw else f"accepted without `is_whitespace(next)`: {badw[:2]}")
     scanners.string_scanners_agree(prog, R, "C15.3-string-scanners-agree")
     scanners.string_flags_check(prog, R, "C15.3-string-flags")
     # block comments: the opener is two characters; its `*` is consumed before the nesting loop starts (otherwise
